@@ -26,7 +26,7 @@ RULE = ("each run = one server configuration (kind, pool/batch sizes, service cl
 STATE_MEASURE = "distinct (server kind, authenticator, bad-script kinds present, #good, #silent-stalled) tuples"
 REAL = ["rpyc.utils.server (accept loop, per-client threads, pool workers and poller, one-shot, forking on a modelled fork)",
         "rpyc.utils.authenticators.AuthenticationError", "Connection / Channel / SocketStream / brine on the server side",
-        "the real client stack for good clients (rpyc.connect, SocketStream.connect, socket_backoff_connect)"]
+        "the real client stack for good clients (rpyc.connect, SocketStream.connect, socket_backoff_connect)", "rpyc.lib.compat.PollingPoll"]
 STUB = ["bad clients = raw simulated sockets", "kernel/threads/clock (simulator)", "os.fork modelled for the forking server"]
 ASSUMPTIONS = ["kernel fidelity", "liveness budget 5 virtual s after the last bad script finished"]
 PROBES = ["c16:bad-client", "c16:good-client", "c16:silent-midframe", "c16:auth-failure", "c16:fresh-client-served", "c16:forged-id"]
